@@ -583,6 +583,17 @@ class Acceptor:
             self.hit('C12', ('caught', mi.name, self.ix.depth[mi.name], occ.typ == 'none'))
             self.threw = True
             res = 0
+            # a transition aborted after its source submachine ran its exit cascade leaves that submachine the
+            # active state of its region (default policy) with the ids it had: the library goes on forwarding to it
+            def revive(m):
+                for sn in m.active:
+                    if sn and m.kind(sn) == 'sub':
+                        c = m.children[sn]
+                        if not c.running and all(c.active):
+                            c.running = True
+                        if c.running:
+                            revive(c)
+            revive(mi)
             if not self.mp:
                 # back / back11 re-offer the deferred queue after a *handled* event only: a step that changed
                 # one region's state and was then aborted by an exception in a sibling region leaves the
@@ -827,6 +838,10 @@ class Acceptor:
             self.exit_state(child, sn, lab, occ, tags)
         site = child.m['_site'] if '_site' in child.m else self.machine_site(child)
         self.expect_cb('EX', site, fsm, lab, occ.id, tags, 'exit-machine')
+        if not self.mp:
+            # back: the machine's own exit behaviour runs first; the history record and the fate of the deferred
+            # queue come after it (an exit behaviour that throws leaves both untouched)
+            self.after_cb('X', site, fsm)
         child.hist = list(child.active)
         child.running = False
         self.hit('C08', ('exit', child.name, tuple(child.hist)))
@@ -836,7 +851,8 @@ class Acceptor:
             keep = (h == 'always') or (isinstance(h, list) and lab in h)
             if not keep:
                 child.deferred = []
-        self.after_cb('X', site, fsm)
+        else:
+            self.after_cb('X', site, fsm)
 
     def machine_site(self, mi):
         if mi.parent:
